@@ -30,6 +30,8 @@ type lgType struct {
 	slice   ast.Expr        // element type for `type T []E`
 	size    *ast.FuncDecl
 	writeTo *ast.FuncDecl
+	readFrom *ast.FuncDecl
+	sizeWhy string // non-empty: size() could not be translated (structure and writeTo only)
 	nilFlags map[string]bool // fields compared with nil: an extra Bool field `<F>_isNil`
 }
 
@@ -524,7 +526,22 @@ func (c *lgCtx) translate(t *lgType) (out string, err error) {
 	rw, _ := recvOf(t.writeTo)
 	se := &lgEnv{c: c, t: t, recv: rs, vars: map[string]string{}}
 	we := &lgEnv{c: c, t: t, recv: rw, vars: map[string]string{}}
-	size := se.sizeBody(t.size.Body)
+	size, sizeWhy := func() (s string, why string) {
+		defer func() {
+			if r := recover(); r != nil {
+				if u, ok := r.(untranslatable); ok {
+					why = u.why
+					return
+				}
+				panic(r)
+			}
+		}()
+		return se.sizeBody(t.size.Body), ""
+	}()
+	if sizeWhy != "" {
+		t.nilFlags = map[string]bool{}
+	}
+	t.sizeWhy = sizeWhy
 	write := we.writeStmts(t.writeTo.Body.List)
 	if t.st != nil {
 		fmt.Fprintf(&sb, "structure %s where\n", t.name)
@@ -543,6 +560,11 @@ func (c *lgCtx) translate(t *lgType) (out string, err error) {
 		}
 	} else {
 		fmt.Fprintf(&sb, "structure %s where\n  items : List %s\n  isNil : Bool\n", t.name, c.leanType(t.slice))
+	}
+	if sizeWhy != "" {
+		fmt.Fprintf(&sb, "/-- size() of %s is not translated (%s): structure and writeTo only, no `legacy_size` -/\n", t.name, strings.ReplaceAll(sizeWhy, "-/", "- /"))
+		fmt.Fprintf(&sb, "def %s.writeTo (t : %s) : Bytes :=\n  %s\n", t.name, t.name, write)
+		return sb.String(), nil
 	}
 	fmt.Fprintf(&sb, "def %s.size (t : %s) : Int :=\n  %s\n", t.name, t.name, size)
 	fmt.Fprintf(&sb, "def %s.writeTo (t : %s) : Bytes :=\n  %s\n", t.name, t.name, write)
@@ -632,7 +654,7 @@ func extractLegacy(repo, root string) error {
 					}
 					if t.st != nil || t.slice != nil {
 						if prev, ok := decls[t.name]; ok {
-							t.size, t.writeTo = prev.size, prev.writeTo
+							t.size, t.writeTo, t.readFrom = prev.size, prev.writeTo, prev.readFrom
 						}
 						decls[t.name] = t
 					}
@@ -656,6 +678,8 @@ func extractLegacy(repo, root string) error {
 					t.size = x
 				case "writeTo":
 					t.writeTo = x
+				case "readFrom":
+					t.readFrom = x
 				}
 			}
 		}
@@ -820,12 +844,58 @@ func extractLegacy(repo, root string) error {
 	}
 	var sb strings.Builder
 	sb.WriteString("-- GENERATED by /verif/go/extract (legacy) from /repo/*.go — do not edit\n")
-	sb.WriteString("import KafkaVerif.Base.LegacyWire\nimport KafkaVerif.Lemmas.LegacyModel\nimport KafkaVerif.Lemmas.LegacyFlat\nnamespace KV.Gen.Legacy\nopen KV KV.Legacy KV.Codec\n\n")
+	sb.WriteString("import KafkaVerif.Base.LegacyWire\nimport KafkaVerif.Base.LegacyRead\nimport KafkaVerif.Lemmas.LegacyModel\nimport KafkaVerif.Lemmas.LegacyFlat\nnamespace KV.Gen.Legacy\nopen KV KV.Legacy KV.Codec\n\n")
 	sb.WriteString("/-- proves `encode (T.ty t) (T.val t) = T.writeTo t`: unfold, split the version tests, rewrite the model encoder into the\nwriteBuffer primitives (nested `legacy_model` theorems are simp lemmas) -/\n")
 	sb.WriteString("syntax \"legacy_model_tac \" ident ident ident : tactic\nmacro_rules\n  | `(tactic| legacy_model_tac $a $b $w) => `(tactic|\n      (simp only [$a:ident, $b:ident, $w:ident]\n       repeat' split\n       all_goals (first | rfl | (simp [enc_struct, encFields_cons, encFields_nil, enc_int8, enc_int16, enc_int32, enc_int64, enc_bool, enc_string, enc_bytes, enc_array, enc_array_null] <;> try (simp [writeStringArray, writeInt32Array, writeArray, writeArrayLen, writeInt32, writeString, writeInt32_fun, writeString_fun])))))\n\n")
 	sb.WriteString("/-- the one tactic that proves every `legacy_size`: unfold the two methods, rewrite written lengths into announced\nsizes (nested `legacy_size` theorems are simp lemmas), close the linear arithmetic -/\n")
 	sb.WriteString("syntax \"legacy_size_tac \" ident ident : tactic\nmacro_rules\n  | `(tactic| legacy_size_tac $s $w) => `(tactic|\n      (simp only [$s:ident, $w:ident]\n       repeat' split\n       all_goals ((try simp_all [len_writeArray', len_writeEach, sizeofArray, sumInt_const,\n         sizeofInt8, sizeofInt16, sizeofInt32, sizeofInt64, sizeofBool, sizeofInt32Array, sizeofStringArray, sumInt]) <;> (try omega))))\n\n")
 	translated := map[string]bool{}
+	writeOnly := map[string]bool{}
+	readerOK := map[string]bool{}
+	var noReader []string
+	// types read by the reflective read(): locals passed to (*Conn).readResponse(size, &x), and the struct types they contain
+	reflReach := map[string]bool{}
+	for _, f := range pkg.Files {
+		for _, d := range f.Decls {
+			fd, ok := d.(*ast.FuncDecl)
+			if !ok || fd.Body == nil {
+				continue
+			}
+			locals := map[string]string{}
+			ast.Inspect(fd.Body, func(n ast.Node) bool {
+				switch x := n.(type) {
+				case *ast.ValueSpec:
+					if id, ok := x.Type.(*ast.Ident); ok {
+						for _, nm := range x.Names {
+							locals[nm.Name] = id.Name
+						}
+					}
+				case *ast.CallExpr:
+					if sel, ok := x.Fun.(*ast.SelectorExpr); ok && sel.Sel.Name == "readResponse" && len(x.Args) == 2 {
+						if u, ok := x.Args[1].(*ast.UnaryExpr); ok && u.Op == token.AND {
+							if id, ok := u.X.(*ast.Ident); ok && locals[id.Name] != "" {
+								reflReach[locals[id.Name]] = true
+							}
+						}
+					}
+				}
+				return true
+			})
+		}
+	}
+	for changed := true; changed; {
+		changed = false
+		for n := range reflReach {
+			if t, ok := c.types[n]; ok {
+				for _, d := range c.deps(t) {
+					if !reflReach[d] {
+						reflReach[d] = true
+						changed = true
+					}
+				}
+			}
+		}
+	}
 	schemaOK := map[string]bool{}
 	var noSchema []string
 	var failed []string
@@ -846,13 +916,30 @@ func extractLegacy(repo, root string) error {
 			failed = append(failed, fmt.Sprintf("(%q, %q)", n, err.Error()))
 			continue
 		}
-		translated[n] = true
+		if t.sizeWhy != "" {
+			failed = append(failed, fmt.Sprintf("(%q, %q)", n, "size(): "+t.sizeWhy))
+			writeOnly[n] = true
+		} else {
+			translated[n] = true
+		}
 		sb.WriteString(src + "\n")
 		if sch, err := c.translateSchema(t); err == nil {
 			schemaOK[n] = true
 			sb.WriteString(sch + "\n")
 		} else {
 			noSchema = append(noSchema, fmt.Sprintf("(%q, %q)", n, err.Error()))
+		}
+		// the reader: readFrom, or (types reached from a value passed to (*Conn).readResponse) the reflective read
+		switch {
+		case t.readFrom != nil && reflReach[n]:
+			noReader = append(noReader, fmt.Sprintf("(%q, %q)", n, "has readFrom but is read reflectively"))
+		case t.readFrom != nil || reflReach[n]:
+			if rd, err := c.translateReader(t, readerOK, t.readFrom == nil); err == nil {
+				readerOK[n] = true
+				sb.WriteString(rd + "\n")
+			} else {
+				noReader = append(noReader, fmt.Sprintf("(%q, %q)", n, err.Error()))
+			}
 		}
 	}
 	sort.Slice(writers, func(i, j int) bool { return writers[i].Name.Name < writers[j].Name.Name })
@@ -883,6 +970,24 @@ func extractLegacy(repo, root string) error {
 	}
 	fmt.Fprintf(&sb, "/-- types with both size() and writeTo() that were translated (each has a `legacy_size` theorem above) -/\ndef translated : List String := [%s]\n", strings.Join(tl, ", "))
 	fmt.Fprintf(&sb, "/-- translated types whose writeTo could not be read as a schema, with the reason -/\ndef noSchema : List (String × String) := [%s]\n", strings.Join(noSchema, ", "))
+	var rl []string
+	for _, n := range order {
+		if readerOK[n] {
+			rl = append(rl, n)
+		}
+	}
+	var rq, rt []string
+	for _, n := range rl {
+		rq = append(rq, fmt.Sprintf("%q", n))
+		z := n + ".zero"
+		if c.versioned[n] {
+			z = "(" + n + ".zero v)"
+		}
+		rt = append(rt, fmt.Sprintf("(%q, fun %s bs => (%s.readFrom %s bs).map fun (t, r) => (%s.writeTo t, r))", n, map[bool]string{true: "v", false: "_"}[c.versioned[n]], n, z, n))
+	}
+	fmt.Fprintf(&sb, "/-- types whose reader was translated (each has `read_write` above) -/\ndef readers : List String := [%s]\n", strings.Join(rq, ", "))
+	fmt.Fprintf(&sb, "/-- types with a readFrom / read reflectively whose reader is not translated, with the reason -/\ndef noReader : List (String × String) := [%s]\n", strings.Join(noReader, ", "))
+	fmt.Fprintf(&sb, "/-- the translated readers followed by the same type's writer, for the oracle: version, body ↦ (re-encoded bytes, bytes left) -/\ndef rewriters : List (String × (Int → Bytes → Option (Bytes × Bytes))) := [\n  %s]\n", strings.Join(rt, ",\n  "))
 	fmt.Fprintf(&sb, "/-- types passed to (*Conn).writeRequest -/\ndef emitted : List String := [%s]\n", strings.Join(el, ", "))
 	fmt.Fprintf(&sb, "/-- types the translator does not handle, with the reason -/\ndef untranslated : List (String × String) := [%s]\n", strings.Join(failed, ", "))
 	sb.WriteString("/-- every emitted type has its theorem -/\ntheorem emitted_covered : emitted.all (fun n => translated.contains n) = true := by decide\n")
